@@ -48,11 +48,26 @@ type Evaluator struct {
 	MaxPaths int
 	// MaxVisits bounds how often one path may re-enter a block (loop unrolling); default 2.
 	MaxVisits int
+	// Path counting (optional): every path carries an event counter (0, 1, 2 = two or more).
+	// CountEvent gives the events contributed by executing an instruction; CallOutcomes may give a call several
+	// alternative results, each with its own event count (the path forks); StopAt ends a path early; AtEnd is
+	// called with the counter at every Return and StopAt instruction.
+	CountEvent   func(in ssa.Instruction) int
+	CallOutcomes func(call *ssa.Call, get func(ssa.Value) EVal) []CallOutcome
+	StopAt       func(in ssa.Instruction) bool
+	AtEnd        func(at ssa.Instruction, count int, get func(ssa.Value) EVal)
 	paths     int
 	Aborted  bool
 }
 
+// CallOutcome is one alternative result of a call for the counting evaluator.
+type CallOutcome struct {
+	Val   EVal
+	Count int
+}
+
 type evalEnv struct {
+	count  int
 	vals   map[ssa.Value]EVal
 	mem    map[ssa.Value]EVal // local allocs
 	fmem   map[fieldKey]EVal  // fields of local struct allocs
@@ -65,7 +80,7 @@ type fieldKey struct {
 }
 
 func (e *evalEnv) clone() *evalEnv {
-	n := &evalEnv{vals: map[ssa.Value]EVal{}, mem: map[ssa.Value]EVal{}, fmem: map[fieldKey]EVal{}, visits: map[*ssa.BasicBlock]int{}}
+	n := &evalEnv{count: e.count, vals: map[ssa.Value]EVal{}, mem: map[ssa.Value]EVal{}, fmem: map[fieldKey]EVal{}, visits: map[*ssa.BasicBlock]int{}}
 	for k, v := range e.fmem {
 		n.fmem[k] = v
 	}
@@ -91,6 +106,23 @@ func (ev *Evaluator) Run(f *ssa.Function) {
 	}
 	env := &evalEnv{vals: map[ssa.Value]EVal{}, mem: map[ssa.Value]EVal{}, fmem: map[fieldKey]EVal{}, visits: map[*ssa.BasicBlock]int{}}
 	ev.runBlock(f.Blocks[0], nil, env)
+}
+
+// RunFromBlock explores from the start of block b (values defined before it are unknown).
+func (ev *Evaluator) RunFromBlock(b *ssa.BasicBlock) {
+	if ev.MaxPaths == 0 {
+		ev.MaxPaths = 4096
+	}
+	env := &evalEnv{vals: map[ssa.Value]EVal{}, mem: map[ssa.Value]EVal{}, fmem: map[fieldKey]EVal{}, visits: map[*ssa.BasicBlock]int{}}
+	ev.runBlock(b, nil, env)
+}
+
+func bump(c, d int) int {
+	c += d
+	if c > 2 {
+		c = 2
+	}
+	return c
 }
 
 func (ev *Evaluator) get(env *evalEnv, v ssa.Value) EVal {
@@ -160,12 +192,54 @@ func (ev *Evaluator) runBlock(b, from *ssa.BasicBlock, env *evalEnv) {
 	for i, ph := range phis {
 		env.vals[ph] = phiVals[i]
 	}
-	for _, in := range b.Instrs {
+	ev.runInstrs(b, 0, env)
+}
+
+// runInstrs executes b's instructions from index start in env (forking where the counting hooks say so).
+func (ev *Evaluator) runInstrs(b *ssa.BasicBlock, start int, env *evalEnv) {
+	get := func(v ssa.Value) EVal { return ev.get(env, v) }
+	for idx := start; idx < len(b.Instrs); idx++ {
+		in := b.Instrs[idx]
 		if _, ok := in.(*ssa.Phi); ok {
 			continue
 		}
+		if ev.Aborted {
+			return
+		}
+		if ev.StopAt != nil && ev.StopAt(in) {
+			if ev.AtEnd != nil {
+				ev.AtEnd(in, env.count, get)
+			}
+			return
+		}
 		if ev.Observe != nil {
 			ev.Observe(in, get)
+		}
+		if ev.CountEvent != nil {
+			env.count = bump(env.count, ev.CountEvent(in))
+		}
+		if call, ok := in.(*ssa.Call); ok && ev.CallOutcomes != nil {
+			if outs := ev.CallOutcomes(call, get); len(outs) > 0 {
+				for k, o := range outs {
+					e2 := env
+					if k < len(outs)-1 {
+						e2 = env.clone()
+						ev.paths++
+						if ev.paths > ev.MaxPaths {
+							ev.Aborted = true
+							return
+						}
+					}
+					if o.Val.K != EUnknown {
+						e2.vals[call] = o.Val
+					} else {
+						delete(e2.vals, call)
+					}
+					e2.count = bump(e2.count, o.Count)
+					ev.runInstrs(b, idx+1, e2)
+				}
+				return
+			}
 		}
 		switch x := in.(type) {
 		case *ssa.BinOp:
@@ -265,7 +339,12 @@ func (ev *Evaluator) runBlock(b, from *ssa.BasicBlock, env *evalEnv) {
 		case *ssa.Jump:
 			ev.runBlock(b.Succs[0], b, env)
 			return
-		case *ssa.Return, *ssa.Panic:
+		case *ssa.Return:
+			if ev.AtEnd != nil {
+				ev.AtEnd(x, env.count, get)
+			}
+			return
+		case *ssa.Panic:
 			return
 		}
 	}
